@@ -31,6 +31,8 @@ def main():
         if args.replay:
             return replay(mod, prop, args.replay)
         acc = engine.Acc(prop)
+        if args.tier == "thorough" and "PV_STAGE_TIMEOUT" not in os.environ:
+            engine.STAGE_TIMEOUT = 8 * 3600.0
         mod.run(acc, args.tier)
         meta = mod.META
         return engine.finish(
